@@ -12,15 +12,15 @@ ExploreSmall ==
   \cup {Range(I(0), I(1), R(1, 2), 0)}
   \cup {Factor(n, I(2), I(3), I(1), 5) : n \in 0..2} \cup {FactorMax}
   \cup {Boundary("api", n, I(1), I(2), I(3)) : n \in 2..3}
-  \cup {Poly(Ints(n), <<I(1), I(0), I(1)>>, <<I(1)>>) : n \in 0..2}
+  \cup {Poly("polyapi", Ints(n), <<I(1), I(0), I(1)>>, <<I(1)>>) : n \in 0..2}
   \cup {Values("values", Ints(n)) : n \in 1..2}
   \cup {Text(Ints(n)) : n \in 0..2}
   \cup {Buffer("buffer", Ints(n)) : n \in 0..2}
   \cup {Buffer("args", Ints(n)) : n \in 0..2}
 ExploreMore ==
-  {Linear("api", 3, I(0), I(6), 0), Linear("profile", 2, I(0), I(6), 0), Factor(3, I(2), I(3), I(1), 5),
+  {IterArg(Linear("desc", 2, I(0), I(6), 0)), Linear("api", 3, I(0), I(6), 0), Linear("profile", 2, I(0), I(6), 0), Factor(3, I(2), I(3), I(1), 5),
    Boundary("api", 4, I(1), I(2), I(3)), Boundary("profile", 3, I(1), I(2), I(3)),
-   Poly(Ints(3), <<I(1), I(0), I(1)>>, <<I(1)>>), Values("values", Ints(3)), Values("desc", Ints(2)),
+   Poly("profile", Ints(3), <<I(1), I(0), I(1)>>, <<I(1)>>), Values("values", Ints(3)), Values("desc", Ints(2)),
    Text(Ints(3)), Buffer("buffer", Ints(3)), Buffer("args", Ints(3))}
 
 LinParams == {<<1, I(0), I(1)>>, <<2, I(-1), I(1)>>, <<3, I(0), I(6)>>, <<4, I(1), I(2)>>, <<2, R(1, 2), R(5, 2)>>,
@@ -33,7 +33,11 @@ WalkLinear ==
   \cup {Linear("profile", p[1], p[2], p[3], st) : p \in LinParams, st \in {0, 1}}
 WalkRange ==
   {Range(I(0), I(1), R(1, 4), 0), Range(I(0), I(1), R(1, 2), 1), Range(I(-1), I(1), R(1, 2), 0), Range(I(0), I(1), I(1), 0),
-   Range(I(0), I(3), I(2), 0), Range(I(0), I(1), R(1, 10), 2), Range(R(1, 2), I(3), R(5, 8), 1), Range(I(2), I(4), R(1, 5), 2)}
+   Range(I(0), I(3), I(2), 0), Range(I(0), I(1), R(1, 10), 2), Range(R(1, 2), I(3), R(5, 8), 1), Range(I(2), I(4), R(1, 5), 2),
+   Range(I(0), I(1), R(1, 10), 3),
+   \* decimal steps: the count is floor((b - a) / step) in exact arithmetic
+   Range(I(0), R(3, 10), R(1, 10), 0), Range(I(0), R(7, 10), R(1, 10), 0), Range(I(0), R(6, 5), R(2, 5), 1),
+   Range(I(1), I(2), R(1, 5), 0), Range(I(0), R(9, 10), R(3, 10), 0), Range(I(0), R(1, 2), R(1, 5), 0)}
 WalkFactor ==
   {Factor(n, I(10), I(10), I(0), 1) : n \in {0, 1, 3}}
   \cup {Factor(n, b, b, I(0), 2) : n \in {0, 2, 4}, b \in {I(2), R(1, 2), I(3)}}
@@ -44,17 +48,27 @@ WalkFactor ==
 WalkBoundary ==
   {Boundary(v, n, l, I(0), R(5, 2)) : v \in {"api", "profile"}, n \in {2, 3, 5}, l \in {I(-1), R(1, 4)}}
 WalkPoly ==
-  {Poly(g, c[1], c[2]) : g \in {Ints(0), Ints(1), Ints(4), <<R(1, 2), I(-2), R(3, 4)>>},
+  {Poly(v, g, c[1], c[2]) : v \in {"profile", "polyapi"}, g \in {Ints(1), Ints(4), <<R(1, 2), I(-2), R(3, 4)>>},
                          c \in {<<<<I(2)>>, <<>>>>, <<<<I(1), I(0)>>, <<>>>>, <<<<I(1), I(0), I(1)>>, <<I(1)>>>>,
                                 <<<<I(1), I(-2), I(1)>>, <<I(-1), I(1)>>>>, <<<<R(1, 2), I(3)>>, <<R(1, 4)>>>>,
                                 <<<<R(1, 10), I(1)>>, <<>>>>}}
+  \cup {Poly("polyapi", <<>>, <<I(2), I(1)>>, <<>>)}
 ValLists == {<<I(7)>>, Ints(3), <<R(1, 2), R(-5, 4), I(3)>>, <<R(1, 10), R(1, 5)>>, <<I(-1), I(0), I(1), I(1000)>>,
              <<R(12345, 1000), R(-1, 8)>>}
 WalkValues == {Values(v, l) : v \in {"values", "desc"}, l \in ValLists}
 WalkText   == {Text(l) : l \in ValLists \cup {<<>>}}
 WalkBuffer == {Buffer(v, l) : v \in {"buffer", "args"}, l \in ValLists \cup {<<>>}}
 
-WalkAll == WalkLinear \cup WalkRange \cup WalkFactor \cup WalkBoundary \cup WalkPoly \cup WalkValues \cup WalkText \cup WalkBuffer
+WalkFill ==
+  {FillSrc("linear", n, ld, p[2], p[3], I(0)) : n \in {2, 3, 5}, ld \in {1, 3}, p \in LinParams}
+  \cup {FillSrc("bound", n, ld, I(-1), R(1, 2), I(4)) : n \in {2, 3, 6}, ld \in {1, 2}}
+
+WalkIterArg ==
+  {IterArg(x) : x \in {y \in WalkLinear : y.via = "desc" /\ y.style = 0}}
+  \cup {IterArg(x) : x \in {y \in WalkRange : y.style = 0}}
+  \cup {IterArg(x) : x \in {y \in WalkFactor \ {FactorMax} : y.form \in {1, 5}}}
+
+WalkAll == WalkIterArg \cup WalkFill \cup WalkLinear \cup WalkRange \cup WalkFactor \cup WalkBoundary \cup WalkPoly \cup WalkValues \cup WalkText \cup WalkBuffer
 
 SrcQuick    == WithExplore(ExploreSmall, TRUE) \cup WithExplore(WalkAll, FALSE)
 SrcThorough == WithExplore(ExploreSmall \cup ExploreMore, TRUE) \cup WithExplore(WalkAll, FALSE)
